@@ -322,8 +322,8 @@ example : C12.replyOf (processWho cfg0 3 chan) w0 =
     carol_outside chan
 
 example : C12.replyOf (processList cfg0 3 [] none) w0 =
-      [str ":irc.irc 321 carol Channel :Users  Name", str ":irc.irc 323 carol :End of /LIST"] ∧
-    C12.replyOf (processWho cfg0 3 chan) w0 = [str ":irc.irc 315 carol #c :End of WHO list"] ∧
+      [(str ":irc.irc " ++ Reply.RplListStart321 (client := str "carol")), (str ":irc.irc " ++ Reply.RplListEnd323 (client := str "carol"))] ∧
+    C12.replyOf (processWho cfg0 3 chan) w0 = [(str ":irc.irc " ++ Reply.RplEndOfWho315 (client := str "carol") (mask := str "#c"))] ∧
     -- ... whereas bob, a member, sees the members
     (C12.replyOf (processWho cfg0 2 chan) w0).length = 3 := by decide
 
